@@ -258,6 +258,9 @@ def dry_runs():
         yield 'S4_control', dict(k=k, uni=bool(k % 2))
 
 
+PROBES = ['transports']      # representation probes (harness/probes.py) this harness depends on
+
+
 MANIFEST_ENTRY = {
     'level_text': 'Bounded symbolic verification of the real send/sendline/write/writelines of all four transports with '
                   'symbolic payloads (text: any code points; bytes: all byte values; <=3 characters, two calls): texts '
